@@ -69,6 +69,12 @@ Inductive SRen (F : nat) (d : nat) (rest : list token) : rstmt -> list token -> 
 | SR_print items mitems ti : tr_items items = Some mitems -> IRenders rest mitems ti ->
     S d + idepth mitems < max_nesting -> isize items <= F ->
     SRen F d rest (SPrint items) (TPrint :: ti)
+| SR_print_q items mitems ti : tr_items items = Some mitems -> IRenders rest mitems ti ->
+    S d + idepth mitems < max_nesting -> isize items <= F ->
+    SRen F d rest (SPrint items) (TQuestionMark :: ti)
+| SR_let_kw v e e' te : tr e = Some e' -> Renders 0 e' te -> S d + pdepth e' < max_nesting -> stops 0 rest = true ->
+    xsize e <= F ->
+    SRen F d rest (SLet v [] e) (TLet :: TSymbol v :: TEquals :: te)
 | SR_goto n x : line_target x = n -> SRen F d rest (SGoto n) [TGoto; TNumber x]
 | SR_gosub n x : line_target x = n -> SRen F d rest (SGosub n) [TGosub; TNumber x]
 | SR_return : SRen F d rest SReturn [TReturn]
@@ -393,14 +399,41 @@ Section Step.
          split; [reflexivity|]; split; [apply keeps_at|]; split; [reflexivity | split; [reflexivity | discriminate]]).
   Qed.
 
-  (* PRINT *)
-  Lemma step_print items mitems ti rest i :
-    skipn i toks = TPrint :: ti ++ rest ->
-    tr_items items = Some mitems -> IRenders rest mitems ti -> S d + idepth mitems < max_nesting -> isize items <= F ->
-    steps_as (SPrint items) i (TPrint :: ti).
+  (* LET v = e: the keyword is consumed, the rest is the assignment *)
+  Lemma step_let_kw v e e' te rest i :
+    skipn i toks = TLet :: TSymbol v :: TEquals :: te ++ rest -> stops 0 rest = true ->
+    tr e = Some e' -> Renders 0 e' te -> S d + pdepth e' < max_nesting -> xsize e <= F ->
+    steps_as (SLet v [] e) i (TLet :: TSymbol v :: TEquals :: te).
   Proof.
-    intros Hsk Htr Hren Hdp HF.
-    destruct (model_print s toks Htoks mitems ti rest i Htrace Hsk Hren d Hd Hdp) as (f0 & Hm).
+    intros Hsk Hst Htr Hren Hdp HF.
+    destruct (skipn_cons_nth _ _ _ _ Hsk) as [H0 Hs1].
+    destruct (skipn_cons_nth _ _ _ _ Hs1) as [H1 _].
+    destruct (step_let v e e' te rest (S i) Hs1 Hst Htr Hren Hdp HF) as (f0 & H).
+    exists (S f0). intros fuel Hf r o. destruct fuel as [|f]; [lia|].
+    specialize (H (S f) ltac:(lia) (S r) o). unfold step_result in *.
+    assert (E : evaluate_statement (S f) d (at_idx s i r o) = evaluate_statement (S f) d (at_idx s (S i) (S r) o)).
+    { cbn [evaluate_statement]. rewrite Hd. unfold evaluate_statement_body.
+      rewrite !bind_get_run.
+      change (enable_tracing (at_idx s i r o)) with (enable_tracing s).
+      change (enable_tracing (at_idx s (S i) (S r) o)) with (enable_tracing s). rewrite Htrace. cbv iota.
+      rewrite !bind_ret'.
+      erewrite bind_ok by (apply (next_some s toks Htoks); exact H0). cbv iota beta.
+      unfold evaluate_let_statement.
+      erewrite bind_ok by (apply (next_some s toks Htoks); exact H1). cbv iota beta.
+      erewrite bind_ok by (apply (next_some s toks Htoks); exact H1). reflexivity. }
+    rewrite E. revert H. unfold step_outcome. cbn [length].
+    replace (S i + S (S (length te))) with (i + S (S (S (length te)))) by lia. exact (fun H => H).
+  Qed.
+
+  (* PRINT *)
+  Lemma step_print hd items mitems ti rest i :
+    hd = TPrint \/ hd = TQuestionMark ->
+    skipn i toks = hd :: ti ++ rest ->
+    tr_items items = Some mitems -> IRenders rest mitems ti -> S d + idepth mitems < max_nesting -> isize items <= F ->
+    steps_as (SPrint items) i (hd :: ti).
+  Proof.
+    intros Hhd Hsk Htr Hren Hdp HF.
+    destruct (model_print s toks Htoks mitems ti rest i Htrace hd Hhd Hsk Hren d Hd Hdp) as (f0 & Hm).
     exists f0. intros fuel Hf r o. destruct (Hm fuel Hf r o) as (i' & r' & o' & HW & Hrun). clear Hm.
     apply W_off in HW. subst o'. unfold step_result, step_outcome. cbn [exec].
     rewrite (ref_print_items F st s Hrel items mitems Htr HF false []), Hrun.
@@ -1495,7 +1528,7 @@ Lemma SRen_nodata F d rest stmt ts : SRen F d rest stmt ts ->
   (exists items, stmt = SData items /\ ts = [TData items] /\ d = 0)
   \/ (forallb notdata ts = true /\ data_of_stmt stmt = []).
 Proof.
-  induction 1 as [d rest v e e' te H1 H2 H3 H4 H5|d rest items mitems ti H1 H2 H3 H4|d rest n x H1|d rest n x H1|d rest|d rest
+  induction 1 as [d rest v e e' te H1 H2 H3 H4 H5|d rest items mitems ti H1 H2 H3 H4|d rest items mitems ti H1 H2 H3 H4|d rest v e e' te H1 H2 H3 H4 H5|d rest n x H1|d rest n x H1|d rest|d rest
                  |d rest c c' tc n x H1 H2 H3 H4 H5
                  |d rest v a a' ta b b' tb stp tstep A1 A2 A3 A4 B1 B2 B3 B4 HC|d rest v|d rest b0
                  |d rest items Hd0|d rest|d rest vs Hvs
@@ -1504,6 +1537,8 @@ Proof.
     try (right; split; reflexivity).
   - right. split; [|reflexivity]. cbn [forallb]. rewrite (Renders_nodata _ _ _ H2). reflexivity.
   - right. split; [|reflexivity]. cbn [forallb]. rewrite (IRenders_nodata _ _ _ H2). reflexivity.
+  - right. split; [|reflexivity]. cbn [forallb]. rewrite (IRenders_nodata _ _ _ H2). reflexivity.
+  - right. split; [|reflexivity]. cbn [forallb]. rewrite (Renders_nodata _ _ _ H2). reflexivity.
   - right. split; [|reflexivity]. cbn [forallb]. rewrite forallb_app', (Renders_nodata _ _ _ H2). reflexivity.
   - right. split; [|reflexivity]. cbn [forallb]. rewrite forallb_app', (Renders_nodata _ _ _ A2). cbn [forallb].
     rewrite forallb_app', (Renders_nodata _ _ _ B2).
@@ -2287,7 +2322,7 @@ Section Program.
     - eapply (arm_stmt F p s toks Htoks (pcloc (st_toks s)) d li st aft); [|exact Hsk|intros x0; discriminate].
       eapply (step_let F p s toks Htoks Htr Hw (pcloc (st_toks s)) (S d) Hd li aft st Hrel v e e' te rest' j); eassumption.
     - eapply (arm_stmt F p s toks Htoks (pcloc (st_toks s)) d li st aft); [|exact Hsk|intros x0; discriminate].
-      eapply (step_print F p s toks Htoks Htr Hw (pcloc (st_toks s)) (S d) Hd li aft st Hrel items mitems ti rest' j); eassumption.
+      eapply (step_print F p s toks Htoks Htr Hw (pcloc (st_toks s)) (S d) Hd li aft st Hrel TPrint items mitems ti rest' j); try eassumption. left; reflexivity.
     - eapply (arm_stmt F p s toks Htoks (pcloc (st_toks s)) d li st aft); [|exact Hsk|intros x0; discriminate].
       eapply (step_goto F p s toks Htoks Htr Hw (Inv_jump s HI) (pcloc (st_toks s)) (S d) Hd li aft st Hrel n x rest' j); eassumption.
     - eapply (arm_stmt F p s toks Htoks (pcloc (st_toks s)) d li st aft); [|exact Hsk|intros x0; discriminate].
@@ -2312,14 +2347,16 @@ Section Program.
     intros HI Htoks Hrel Hcr Hlr Hty Hdr Hd Hsk Hrest HS HLa.
     pose proof (i_trace s HI) as Htr. pose proof (i_warn s HI) as Hw.
     revert i Hd Hsk Hrest HLa.
-    induction HS as [d rest v e e' te H1 H2 H3 H4 H5|d rest items mitems ti H1 H2 H3 H4|d rest n x H1|d rest n x H1|d rest|d rest
+    induction HS as [d rest v e e' te H1 H2 H3 H4 H5|d rest items mitems ti H1 H2 H3 H4|d rest items mitems ti H1 H2 H3 H4|d rest v e e' te H1 H2 H3 H4 H5|d rest n x H1|d rest n x H1|d rest|d rest
                     |d rest c c' tc n x H1 H2 H3 H4 H5
                     |d rest v a a' ta b b' tb stp tstep A1 A2 A3 A4 B1 B2 B3 B4 HC|d rest v|d rest b0
                     |d rest items Hd0|d rest|d rest vs Hvs
                     |d rest c c' tc stmt tn H1 H2 H3 H4 H5 H6 IH H7
                     |d rest c c' tc A ta n x H1 H2 H3 H4 H5 H6 H7|d rest c c' tc A ta B tb H1 H2 H3 H4 H5 H6 H7 IH]; intros i Hd Hsk Hrest HLa.
     - eapply (step_let F p s toks Htoks Htr Hw (pcloc (st_toks s)) d Hd li after st Hrel v e e' te rest i); eassumption.
-    - eapply (step_print F p s toks Htoks Htr Hw (pcloc (st_toks s)) d Hd li after st Hrel items mitems ti rest i); eassumption.
+    - eapply (step_print F p s toks Htoks Htr Hw (pcloc (st_toks s)) d Hd li after st Hrel TPrint items mitems ti rest i); try eassumption. left; reflexivity.
+    - eapply (step_print F p s toks Htoks Htr Hw (pcloc (st_toks s)) d Hd li after st Hrel TQuestionMark items mitems ti rest i); try eassumption. right; reflexivity.
+    - eapply (step_let_kw F p s toks Htoks Htr Hw (pcloc (st_toks s)) d Hd li after st Hrel v e e' te rest i); eassumption.
     - eapply (step_goto F p s toks Htoks Htr Hw (Inv_jump s HI) (pcloc (st_toks s)) d Hd li after st Hrel n x rest i); eassumption.
     - eapply (step_gosub F p s toks Htoks Htr Hw (Inv_jump s HI) (pcloc (st_toks s)) d Hd li after st Hrel n x rest i);
         [exact Hsk | exact H1 | apply calls_depth; exact Hcr | exact HLa].
